@@ -1,5 +1,6 @@
 mod codec;
 mod decoder;
+mod diag;
 mod gap;
 mod phyrx;
 mod util;
@@ -22,6 +23,7 @@ fn engine(name: &str) -> Option<(fn(&mut Vec<String>, u64, bool), Box<dyn Execut
     match name {
         "codec" => Some((codec::gen, Box::new(Stateless(codec::exec)))),
         "decoder" => Some((decoder::gen, Box::new(Stateless(decoder::exec)))),
+        "diag" => Some((diag::gen, Box::new(diag::Exec::default()))),
         "gap" => Some((gap::gen, Box::new(Stateless(gap::exec)))),
         "phyrx" => Some((phyrx::gen, Box::new(phyrx::Exec::new()))),
         _ => None,
